@@ -13,7 +13,7 @@ CONSTANTS Upper        \* [STRING -> STRING] over the vocabulary of digis and ta
 NoDigiSchemes == {"ardop", "telnet"}       \* schemes that cannot use a digipeater path
 
 Expected(c) ==
-    IF Len(c.target) < 3
+    IF Len(Upper[c.target]) < 3          \* the resulting (upper-cased) target has fewer than three characters
       THEN [err |-> "target"]
     ELSE IF Len(c.digis) > 0 /\ c.scheme \in NoDigiSchemes
       THEN [err |-> "digis"]
